@@ -354,10 +354,23 @@ def _mk_reoriented(m_a, spec, case, cp, rec):
     return k
 
 
+def _start_in_isclose_window(spec, start):
+    """Start orientation differs from the target one, but only inside numpy.isclose's default window."""
+    a0, a1 = np.array(start["anis"], dtype=float), np.array(spec["anis"], dtype=float)
+    g0, g1 = np.array(start["angles"], dtype=float), np.array(spec["angles"], dtype=float)
+    same = bool(np.array_equal(a0, a1) and np.array_equal(g0, g1))
+    return (not same) and bool(np.all(np.isclose(a0, a1)) and np.all(np.isclose(g0, g1)))
+
+
 def check_pipeline(case, rec):
     spec = case["spec"]
     dim = spec["dim"]
     kind = case["kind"]
+    if case.get("start") and kind in ("srf", "vector", "fourier") and _start_in_isclose_window(spec, case["start"]):
+        # generators compare their model copy with numpy.isclose: an in-place change inside that window is not seen (finding K7,
+        # registered and probed under C11) - the re-orientation route is left out for such a start, the fresh route still runs
+        rec.exclude("K7_isclose_window_start_orientation")
+        case = {k: v for k, v in case.items() if k != "start"}
     tags = dict(gens.spec_tags(spec), kind=kind)
     rec.label(kind, spec["cls"])
     pos = np.array(case["pos"], dtype=float).reshape(dim, -1)
